@@ -101,7 +101,11 @@ def oracle(cfg, xs, shape=None, full_walk=False, stats=None):
         sig["kind"] = "ste_ulp_noise"
       else:
         sig["kind"] = "wrong_value"
-      key = sig["kind"]
+      if m["sign"]:
+        # 1-bit sign modes: inputs below the float32 resolution of the shifted
+        # argument are their own root cause (sign decision + straight-through sum)
+        sig["region"] = "tiny_negative" if (x64[i] < 0 and abs(x64[i]) <= 2.0 ** -21 * m["u_in"]) else "regular"
+      key = (sig["kind"], sig.get("region"))
       if key in seen:
         continue
       seen.add(key)
